@@ -74,6 +74,7 @@ class C08RoundTrip1D(Harness):
         yield "j1d-file-static", dict(binning="static", dtype="int64", keep_missed=True, nanmiss=False, file=True)
         yield "j1d-file-fixed", dict(binning="fixed_adaptive", dtype="float64", keep_missed=True, nanmiss=False, file=True)
         yield "j1d-file-static-indent", dict(binning="static", dtype="int64", keep_missed=True, nanmiss=False, file=True, indent=2)
+        yield "j1d-file-saved-twice", dict(binning="static", dtype="int64", keep_missed=True, nanmiss=False, file=True, twice=True)
 
     def declare(self, cx, p):
         kind = "int" if p["dtype"].startswith("int") else "real"
@@ -104,6 +105,8 @@ class C08RoundTrip1D(Harness):
             import tempfile
 
             path = os.path.join(tempfile.gettempdir(), f"symx-c08-{os.getpid()}.json")
+            if p.get("twice"):
+                E.attempt(h.to_json, path)      # the path already holds a document: saving again replaces it
             text = E.attempt(h.to_json, path, indent=p["indent"]) if p.get("indent") else E.attempt(h.to_json, path)
             g = E.attempt(io.load_json, path)
             if not E.sym and os.path.exists(path):
